@@ -2,7 +2,7 @@
    Only ExtrOcamlBasic's Extract Inductive directives (bool, option, unit,
    list, prod, sumbool, sumor); nat, N, positive stay inductive types;
    no Extract Constant. *)
-Require Import LV.Base LV.VV LV.Path LV.Prog LV.Objects LV.Exec LV.Atomic LV.Ops LV.Check LV.Ref LV.Num.
+Require Import LV.Base LV.VV LV.Path LV.Prog LV.Objects LV.Exec LV.Atomic LV.Ops LV.Check LV.Ref LV.Num LV.RC11.
 Require Extraction.
 Require Import ExtrOcamlBasic.
 Extraction Language OCaml.
@@ -11,4 +11,4 @@ Extraction "../ocaml/loom_model.ml"
   branch_thread push_load branch_load branch_spurious backtrack
   explore_state critical skip_branch path_new
   vv_join vv_le vv_lt vv_pcmp apply_rmw
-  ref_outcomes loom_run std_run op_ok in_range.
+  ref_outcomes loom_run std_run op_ok in_range rc11_outcomes rc11_enough_fuel.
